@@ -275,8 +275,7 @@ def kFinal (inp : Inp) : KSt :=
 
 theorem finishMsg_converged_iff (s : KSt) :
     finishMsg s = .converged ↔
-      (s.raised = false ∧ ((s.info = some 0) ∨ (s.info = none ∧ s.msg = .converged) ∨
-        (∃ i, s.info = some i ∧ i < 0 ∧ s.msg = .converged))) := by
+      (s.raised = false ∧ ((s.info = some 0) ∨ (s.info = none ∧ s.msg = .converged))) := by
   unfold finishMsg
   cases hr : s.raised with
   | true =>
@@ -290,16 +289,8 @@ theorem finishMsg_converged_iff (s : KSt) :
       simp only
       by_cases h1 : i < 0
       · simp only [h1, if_true]
-        by_cases h2 : (s.msg == Msg.empty) = true
-        · have : s.msg = .empty := by simpa using h2
-          simp [this]; omega
-        · have h2' : (s.msg == Msg.empty) = false := by simpa using h2
-          simp [h2']
-          constructor
-          · intro h; right; exact ⟨by omega, h⟩
-          · intro h; rcases h with h | h
-            · omega
-            · exact h.2
+        have hne : i ≠ 0 := by omega
+        cases hm : s.msg <;> simp [hne]
       · simp only [h1, if_false]
         by_cases h2 : i > 0
         · simp [h2]; omega
@@ -338,12 +329,13 @@ theorem krylov_reports_returned_field (inp : Inp) (hz : inp.zeroSource = false)
   unfold kPre at h1 h2
   simp [kStep, h1, h2]
 
-/-- **Krylov: success ⇔ SciPy returned `info = 0` without abort** (given that `_terminate` in a
-preconditioner run did not leave "CONVERGED" behind with a negative info, which SciPy never
-returns). -/
+/-- **Krylov: success ⇔ SciPy returned `info = 0` without abort** — for every `info`, negative
+ones (breakdown) included: a "CONVERGED" left behind by `_terminate` in a preconditioner run
+does not survive a negative info (the defect repaired in f9ccc85; before, the statement needed
+the hypothesis `0 ≤ info`, and the excluded point was reachable). -/
 theorem krylov_success_iff_info_zero (inp : Inp) (hz : inp.zeroSource = false)
     (hgood : (!inp.fresh && inp.rProvided.lt inp.cfg.tolRef) = false) (hssl : inp.cfg.ssl = true)
-    (i : Int) (hinfo : (kFinal inp).info = some i) (hnonneg : 0 ≤ i) :
+    (i : Int) (hinfo : (kFinal inp).info = some i) :
     (solve inp).exit = 0 ↔ ((kFinal inp).raised = false ∧ i = 0) := by
   rw [exit_zero_iff_converged]
   unfold solve
@@ -353,11 +345,27 @@ theorem krylov_success_iff_info_zero (inp : Inp) (hz : inp.zeroSource = false)
   constructor
   · rintro ⟨hr, h⟩
     refine ⟨hr, ?_⟩
-    rcases h with h | h | ⟨j, hj, hneg, _⟩
+    rcases h with h | h
     · injection h
     · cases h.1
-    · injection hj with hj; omega
   · rintro ⟨hr, rfl⟩
     exact ⟨hr, Or.inl rfl⟩
+
+/-- a breakdown of the Krylov solver (negative `info`) is always a reported failure -/
+theorem krylov_breakdown_is_failure (inp : Inp) (hz : inp.zeroSource = false)
+    (hgood : (!inp.fresh && inp.rProvided.lt inp.cfg.tolRef) = false) (hssl : inp.cfg.ssl = true)
+    (i : Int) (hinfo : (kFinal inp).info = some i) (hneg : i < 0) :
+    (solve inp).exit = 1 ∧ (solve inp).msg ≠ .converged := by
+  unfold solve
+  simp only [hz, hgood, hssl, Bool.false_eq_true, if_false, if_true]
+  have : finishMsg (kFinal inp) ≠ .converged := by
+    intro hc
+    have h := (finishMsg_converged_iff _).1 hc
+    rw [hinfo] at h
+    rcases h.2 with h | h
+    · injection h with h; omega
+    · cases h.1
+  unfold kFinal at this
+  simp [this]
 
 end SolveM
